@@ -225,7 +225,9 @@ def c04_runtime(ctx, shape, method, l1, mob, form, ls, aa, weight, masses, num_i
         opts.update(bregman_update=lambda it: it % 3 == 0, tol_residual=1e-30, tol_increment=1e-30, tol_distance=1e-30, num_iter=10)
         method = "bregman"
     thin = min(shape) == 1 or len(shape) == 1
-    known_cfg = thin and mob in ("SUBCELL_BASED", "FACE_BASED")
+    # the recorded finding is the IndexError that escapes the BREGMAN solver (raised before its loop); Newton handles it inside its iteration (falls back to the last
+    # valid iterate, flagged non-converged), so an IndexError escaping Newton is not the recorded finding (after seed C05_l)
+    known_cfg = thin and mob in ("SUBCELL_BASED", "FACE_BASED") and method == "bregman"
     ctx.witness("subcell_or_face_mobility_on_thin_grid", False)
     with warnings.catch_warnings():
         warnings.simplefilter("ignore")
